@@ -14,7 +14,20 @@
 //!                                         future k, -1 polls the stream once; then the stream is
 //!                                         polled to its end (lowest pending future completed
 //!                                         whenever it is pending); output: all chunks concatenated
-//! view : (0 bytes) String child | (1 cp) char child | (3 n) i64 child | (4) unit
+//!        (6 mode view schedule)           a whole document: leptos_meta components anywhere in the
+//!                                         body view (also below Suspend boundaries), the shell
+//!                                         <html><head><meta charset/><MetaTags/></head><body>..
+//!                                         streamed in order (mode 0) / out of order (mode 1) through
+//!                                         the real inject_meta_context under the schedule; output:
+//!                                         (document neutral-document): the second rendering is of the
+//!                                         same case with every data string replaced by letters
+//!        (8 child position s)             the view! child form `child` in the position `position`
+//!                                         (macro-inlined literals: static_grid)
+//! view : (6 kind variant (strings..) rep) a leptos_meta component (renders nothing in place):
+//!                                         kind 0 Title 1 Meta 2 Link 3 Stylesheet 4 Script 5 Style
+//!                                         6 Html 7 Body 8 fixed component with hostile literal props;
+//!                                         prop i takes strings[i mod len] in representation rep + i
+//!        (0 bytes) String child | (1 cp) char child | (3 n) i64 child | (4) unit
 //!        (5 k view)  Suspend::new(async { future k; view })
 //!        (2 tag attrs children)  tag: index into TAGS
 //! attr : (0 name value ty) | (1 name bool ty) | (2 class ty) | (3 class-name bool ty) | (4 style ty)
@@ -306,6 +319,7 @@ pub fn view(v: &Sexp) -> AnyView {
             })
             .into_any()
         }
+        6 => meta_node(v),
         0 => text_child(v.at(2).num(), text(v.at(1))),
         1 => char::from_u32(v.at(1).num() as u32)
             .expect("scalar value")
@@ -461,20 +475,18 @@ fn document(c: &Sexp) -> String {
     })
 }
 
-fn streamed(c: &Sexp) -> String {
+type BoxedStream = std::pin::Pin<Box<dyn futures::Stream<Item = String>>>;
+
+/// polls `make()`'s stream under the schedule (k >= 0 completes future k, -1 polls once), then
+/// to its end, completing the lowest pending future whenever the stream is pending
+fn drive_stream(sched: &Sexp, make: impl FnOnce() -> BoxedStream) -> String {
     use crate::c12::{noop_waker, reset_executor, run_until_idle};
-    use futures::Stream;
     use std::task::{Context, Poll};
     reset_executor();
     GATES.with(|g| g.borrow_mut().clear());
     let owner = Owner::new();
     let out = owner.with(|| {
-        let v = view(c.at(2));
-        let mut stream: std::pin::Pin<Box<dyn Stream<Item = String>>> = if c.at(1).num() == 0 {
-            Box::pin(v.to_html_stream_in_order())
-        } else {
-            Box::pin(v.to_html_stream_out_of_order())
-        };
+        let mut stream = make();
         let waker = noop_waker();
         let mut cx = Context::from_waker(&waker);
         let mut out = String::new();
@@ -496,7 +508,7 @@ fn streamed(c: &Sexp) -> String {
                 Poll::Pending => true,
             }
         };
-        for step in c.at(3).list() {
+        for step in sched.list() {
             let k = step.num();
             if k < 0 {
                 poll(&mut out, &mut ended);
@@ -528,8 +540,183 @@ fn streamed(c: &Sexp) -> String {
     out
 }
 
+fn streamed(c: &Sexp) -> String {
+    drive_stream(c.at(3), || {
+        let v = view(c.at(2));
+        if c.at(1).num() == 0 {
+            Box::pin(v.to_html_stream_in_order())
+        } else {
+            Box::pin(v.to_html_stream_out_of_order())
+        }
+    })
+}
+
+// ------------------------------------------------------------------ streamed document with leptos_meta
+fn oco(rep: i64, s: String) -> Oco<'static, str> {
+    match rep.rem_euclid(3) {
+        1 => Oco::Borrowed(leak(s)),  // what `prop="literal"` / a &'static str gives
+        2 => Oco::Counted(Arc::from(s)),
+        _ => Oco::Owned(s),           // what a String gives
+    }
+}
+
+fn tprop(rep: i64, s: String) -> leptos::text_prop::TextProp {
+    match rep.rem_euclid(6) {
+        1 => leak(s).into(),
+        2 => Oco::<'static, str>::Borrowed(leak(s)).into(),
+        3 => Oco::<'static, str>::Owned(s).into(),
+        4 => (move || s.clone()).into(),
+        5 => Arc::<str>::from(s).into(),
+        _ => s.into(),
+    }
+}
+
+/// (6 kind variant strings rep)
+fn meta_node(v: &Sexp) -> AnyView {
+    let strs: Vec<String> = v.at(3).list().iter().map(text).collect();
+    let rep = v.at(4).num();
+    let st = |i: usize| if strs.is_empty() { String::new() } else { strs[i % strs.len()].clone() };
+    let o = |i: usize| oco(rep + i as i64, st(i));
+    let t = |i: usize| tprop(rep + i as i64, st(i));
+    match (v.at(1).num(), v.at(2).num()) {
+        (0, _) => view! { <Title text=t(0)/> }.into_any(),
+        (1, 0) => view! { <Meta name=t(0) content=t(1)/> }.into_any(),
+        (1, 1) => view! { <Meta property=t(0) content=t(1)/> }.into_any(),
+        (1, 2) => view! { <Meta http_equiv=t(0) content=t(1)/> }.into_any(),
+        (1, 3) => view! { <Meta charset=t(0)/> }.into_any(),
+        (1, _) => view! { <Meta itemprop=t(0) content=t(1) name=t(2)/> }.into_any(),
+        (2, 0) => view! { <Link rel=o(0) href=o(1)/> }.into_any(),
+        (2, 1) => view! { <Link id=o(0) rel=o(1) href=o(2) title=o(3)/> }.into_any(),
+        (2, _) => view! {
+            <Link id=o(0) as_=o(1) crossorigin=o(2) fetchpriority=o(3) href=o(4) hreflang=o(5) imagesizes=o(6)
+                imagesrcset=o(7) integrity=o(8) media=o(9) referrerpolicy=o(10) rel=o(11) sizes=o(12) title=o(13)
+                type_=o(14) blocking=o(15)/>
+        }
+        .into_any(),
+        (3, 0) => view! { <Stylesheet href=st(0)/> }.into_any(),
+        (3, _) => view! { <Stylesheet href=st(0) id=st(1)/> }.into_any(),
+        (4, 0) => view! { <Script src=o(0) id=o(1)/> }.into_any(),
+        (4, 1) => {
+            let code = st(1);
+            view! { <Script id=o(0)>{code}</Script> }.into_any()
+        }
+        (4, _) => view! {
+            <Script id=o(0) async_=o(1) crossorigin=o(2) defer=o(3) fetchpriority=o(4) integrity=o(5) nomodule=o(6)
+                nonce=o(7) referrerpolicy=o(8) src=o(9) type_=o(10) blocking=o(11)/>
+        }
+        .into_any(),
+        (5, 0) => {
+            let css = st(0);
+            view! { <Style>{css}</Style> }.into_any()
+        }
+        (5, _) => {
+            let css = st(5);
+            view! { <Style id=o(0) media=o(1) nonce=o(2) title=o(3) blocking=o(4)>{css}</Style> }.into_any()
+        }
+        (6, 0) => view! { <Html attr:lang=o(0)/> }.into_any(),
+        (6, _) => view! { <Html attr:lang=o(0) attr:dir=o(1)/> }.into_any(),
+        (7, 0) => view! { <Body attr:class=o(0)/> }.into_any(),
+        (7, _) => view! { <Body attr:class=o(0) attr:id=o(1)/> }.into_any(),
+        // hostile literals as props: `prop="lit"` is a &'static str
+        (8, 0) => view! { <Link rel="canonical" href="/s?q=1&lt=2\"><img src=x onerror=alert(1)>"/> }.into_any(),
+        (8, 1) => view! { <Meta name="desc\"ription" content="a\"><script>alert(1)</script>&amp;"/> }.into_any(),
+        (8, 2) => view! { <Stylesheet href="/a.css?x=\"&quot;<" id="s\"id"/> }.into_any(),
+        (8, 3) => view! { <Script src="/a.js?\"><b>" id="&lt;"/> }.into_any(),
+        (8, 4) => view! { <Title text="</title><script>alert(1)</script>&amp;"/> }.into_any(),
+        (8, 5) => view! { <Link id="l\"1" rel="pre\"load" href="&#x3c;x" title="<t>&gt;'"/> }.into_any(),
+        (8, 6) => view! { <Style id="st\"yle" media="screen\" onload=\"alert(1)">"b{color:red}"</Style> }.into_any(),
+        _ => view! { <Meta property="og:title" content="&quot; onclick=&quot;\" x=\""/> }.into_any(),
+    }
+}
+
+/// every data string of a view replaced by a word of letters and digits: equal strings by the same
+/// word, different strings by different words, the empty string by itself
+fn neutral(v: &Sexp, seen: &mut Vec<String>) -> Sexp {
+    fn word(s: &Sexp, seen: &mut Vec<String>) -> Sexp {
+        let s = text(s);
+        if s.is_empty() {
+            return Lst(vec![]);
+        }
+        let k = match seen.iter().position(|x| *x == s) {
+            Some(k) => k,
+            None => {
+                seen.push(s);
+                seen.len() - 1
+            }
+        };
+        Sexp::from_str(&format!("w{k}"))
+    }
+    let l = v.list();
+    match v.at(0).num() {
+        0 => {
+            let mut o = vec![Num(0), word(v.at(1), seen)];
+            o.extend(l.iter().skip(2).cloned());
+            Lst(o)
+        }
+        1 => Lst(vec![Num(1), Num(99)]),
+        5 => Lst(vec![Num(5), v.at(1).clone(), neutral(v.at(2), seen)]),
+        6 => {
+            if v.at(1).num() == 8 {
+                return v.clone();
+            }
+            let strs: Vec<Sexp> = v.at(3).list().iter().map(|x| word(x, seen)).collect();
+            Lst(vec![Num(6), v.at(1).clone(), v.at(2).clone(), Lst(strs), v.at(4).clone()])
+        }
+        2 => {
+            let at: Vec<Sexp> = v
+                .at(2)
+                .list()
+                .iter()
+                .map(|a| {
+                    let mut o: Vec<Sexp> = a.list().to_vec();
+                    match a.at(0).num() {
+                        0 | 5 => o[2] = word(a.at(2), seen),
+                        2 | 3 | 4 | 6 => o[1] = word(a.at(1), seen),
+                        _ => {}
+                    }
+                    Lst(o)
+                })
+                .collect();
+            let kids: Vec<Sexp> = v.at(3).list().iter().map(|k| neutral(k, seen)).collect();
+            Lst(vec![Num(2), v.at(1).clone(), Lst(at), Lst(kids)])
+        }
+        _ => v.clone(),
+    }
+}
+
+fn meta_app(mode: i64, body: &Sexp, sched: &Sexp) -> String {
+    drive_stream(sched, || {
+        let (cx, output) = ServerMetaContext::new();
+        provide_context(cx);
+        provide_meta_context();
+        let body = view(body);
+        let app = view! {
+            <!DOCTYPE html>
+            <html>
+                <head><meta charset="utf-8"/><MetaTags/></head>
+                <body>{body}</body>
+            </html>
+        };
+        let stream: std::pin::Pin<Box<dyn futures::Stream<Item = String> + Send>> = if mode == 0 {
+            Box::pin(app.to_html_stream_in_order())
+        } else {
+            Box::pin(app.to_html_stream_out_of_order())
+        };
+        Box::pin(futures::stream::once(output.inject_meta_context(stream)).flatten())
+    })
+}
+
+fn meta_document(c: &Sexp) -> Sexp {
+    let a = meta_app(c.at(1).num(), c.at(2), c.at(3));
+    let b = meta_app(c.at(1).num(), &neutral(c.at(2), &mut Vec::new()), c.at(3));
+    Lst(vec![Sexp::from_str(&a), Sexp::from_str(&b)])
+}
+
 pub fn run(c: &Sexp) -> Sexp {
     crate::c12::ensure_executor();
+    if c.at(0).num() == 6 {
+        return meta_document(c);
+    }
     let out = match c.at(0).num() {
         1 => view(c.at(1)).to_html(),
         2 => static_view(c.at(1).num()),
